@@ -410,6 +410,22 @@ def c20_execute(trace, tier, res):
                 # environment (deep copy / pickle round trip) from some point
                 variants.append((pi, plan, fx.randint(1, len(plan) - 1),
                                  fx.choice(["deepcopy", "pickle"])))
+        if plans:
+            # "pump" variant: before the last action of the plan, every
+            # exploit and escalation the space offers on an already rooted
+            # sensitive host is applied once more (lower-access actions on a
+            # ROOT host, repeated root actions): pure cost on a correct tree
+            base = plans[0]
+            sens_keys = []
+            for t in sorted(cfg.sensitive):
+                for k in sim.table.by_target.get(t, ()):
+                    if k[0] in ("exploit", "privesc"):
+                        sens_keys.append([k[0], list(k[1]), k[2]])
+            if len(base) >= 2 and sens_keys and len(sens_keys) <= 40:
+                pumped = list(base[:-1]) + sens_keys + \
+                    [a for a in base[:-1] if tuple(a[1]) in
+                     {tuple(t) for t in cfg.sensitive}] + [base[-1]]
+                variants.append((0, pumped, None, "pump"))
         for pi, plan, cut, vkind in variants:
             sim.exec_op({"op": "reset"})
             if vkind in ("deepcopy", "pickle"):
